@@ -231,6 +231,11 @@ func (e *Engine) runJob(spec JobSpec, kfOpen map[string]bool) (job *Job) {
 		return job
 	}
 	defer st.solver.Close()
+	defer func() {
+		if st.absSolver != nil {
+			st.absSolver.Close()
+		}
+	}()
 	if smtLogPath != "" {
 		f, _ := os.Create(smtLogPath)
 		st.solver.log = f
